@@ -4,6 +4,7 @@
 -/
 import Vt.Model.Dump
 import Vt.Spec.Inv
+import Vt.Spec.EmitOk
 open Vt Vt.Dump
 
 structure WEntry where
@@ -121,7 +122,7 @@ def step (W : Nat → Option Nat) (st : DState) (line : String) : DState × Stri
        String.intercalate " " ("ev" :: evs.map eventStr))
     | none => (st, "NOPARSER")
   | ["I"] =>
-    (st, withScreen st (fun s => s!"inv {b01 (invB W s)} {b01 (invPlusB W s)} {invWhy W s}"))
+    (st, withScreen st (fun s => s!"inv {b01 (invB W s)} {b01 (invPlusB W s)} {invWhy W s} {b01 (emitInvB W s)}"))
   | ["F", name] =>
     (st, withScreen st (fun s =>
       match name with
